@@ -1,11 +1,12 @@
 """C05 — Schema `check` verdict is exact on the implemented type-system rules (structural clauses)."""
 import harness
-from facts import (norm, call_name, short, subnodes, lit_value, matches_on, arm_variants, field_reads, peel_ty, str_lits_in)
+from facts import (norm, call_name, short, subnodes, lit_value, matches_on, arm_variants, field_reads, peel_ty, str_lits_in, AnchorMissing)
 from prov import Prov, has_field, has_call
-from templates import (field_coverage, enclosing_contexts, variant_table, recursion_discipline, iterator_reuse)
+from templates import (field_coverage, enclosing_contexts, variant_table, recursion_discipline, iterator_reuse, inlined)
 from c03 import directive_sites, none_handling
 
-CK = "nitrogql_checker::"
+CHK = "nitrogql_checker"
+CK = CHK + "::"
 TS = "nitrogql_ast::type_system::"
 ERR = CK + "error::CheckErrorMessage"
 
@@ -57,6 +58,11 @@ TS_RULE_SITES = {
 
 
 def entry(P):
+    # by role: the checker's fn(&TypeSystemDocument) -> Vec<CheckError>; the reference-tree name is the fall-back
+    hits = [f for f in P.fns.values() if f.crate == CHK and f.kind in ("Fn", "AssocFn") and not f.derived and "::tests" not in f.path
+            and f.sig_inputs == ["&" + TS + "TypeSystemDocument"] and (f.sig_output or "").startswith("alloc::vec::Vec<" + CK + "error::CheckError")]
+    if len(hits) == 1:
+        return hits[0]
     return P.fn(CK + "type_system_checker::check_type_system_document")
 
 
@@ -65,59 +71,195 @@ def scope(P):
     return sorted(p for p in reach if not P.fns[p].derived)
 
 
+# ------------------------------------------------------------------------------------------------- positions (role anchors)
+# A *position* is a kind of type-system node the checker has a function for.  The function is located by its role — the function
+# reachable from the entry whose first parameter is `&<that node>` (the one the others are called from, if a refactoring added
+# helpers with the same first parameter) — and the reference-tree name is only a fall-back.  The *region* of a position is what
+# that function reaches without entering another position's function: extracting part of a checker into helpers, or moving it to
+# another module, leaves the region's content unchanged.
+POSITIONS = {"SchemaDefinition": "check_schema", "ScalarTypeDefinition": "check_scalar", "ObjectTypeDefinition": "check_object",
+             "InterfaceTypeDefinition": "check_interface", "UnionTypeDefinition": "check_union", "EnumTypeDefinition": "check_enum",
+             "InputObjectTypeDefinition": "check_input_object", "ArgumentsDefinition": "check_arguments_definition",
+             "DirectiveDefinition": "check_directive"}
+_POS = {}
+
+
+def _positions(P):
+    if _POS.get("P") is P:
+        return _POS
+    _POS.clear()
+    _POS["P"] = P
+    fns = {}
+    sc = [P.fns[p] for p in scope(P) if P.fns[p].crate == CHK and P.fns[p].kind in ("Fn", "AssocFn")]
+    for adt, name in POSITIONS.items():
+        cands = [f for f in sc if f.sig_inputs and peel_ty(f.sig_inputs[0]) == TS + adt and f.sig_inputs[0].startswith("&")]
+        if len(cands) > 1:
+            roots = [c for c in cands if not any(c.path in P.callees_of(o)[0] for o in cands if o is not c)]
+            cands = roots if len(roots) == 1 else cands
+        if len(cands) == 1:
+            fns[adt] = cands[0]
+        else:
+            fns[adt] = P.fn(CK + "type_system_checker::" + name, required=False)
+    _POS["fns"] = fns
+    paths = {f.path for f in fns.values() if f is not None}
+    _POS["pred"] = lambda g, paths=paths: g.path not in paths and g.path != CK + "common::check_directives"
+    _POS["regions"] = {}
+    _POS["inl"] = {}
+    return _POS
+
+
+def position_fn(P, adt):
+    f = _positions(P)["fns"].get(adt)
+    if f is None:
+        raise AnchorMissing("the checker function for `%s` nodes (first parameter `&%s`) was not identified" % (adt, adt))
+    return f
+
+
+def region(P, adt):
+    """functions of the checker crate reachable from the position's function without entering another position's function"""
+    st = _positions(P)
+    if adt not in st["regions"]:
+        f = position_fn(P, adt)
+        stop = {g.path for a, g in st["fns"].items() if g is not None and a != adt}
+        st["regions"][adt] = [P.fns[p] for p in sorted(P.reachable([f], stop=stop)) if P.fns[p].crate == CHK and not P.fns[p].derived]
+    return st["regions"][adt]
+
+
+def position_inlined(P, adt):
+    """the position's function with its helpers attached (templates.inlined), other positions' functions and check_directives
+    left as calls"""
+    st = _positions(P)
+    if adt not in st["inl"]:
+        st["inl"][adt] = inlined(P, position_fn(P, adt), pred=st["pred"])
+    return st["inl"][adt]
+
+
+def _guarded(R, rule, key, fn, *a):
+    """run one clause; an anchor it cannot resolve leaves only that clause undecided"""
+    try:
+        fn(*a)
+    except AnchorMissing as e:
+        R.undecided(rule, key, "kind=anchor-missing: %s (this clause cannot be evaluated on this shape of the code)" % e)
+
+
+def diag_sites(nodes):
+    """variant names of the CheckErrorMessage constructions among `nodes`"""
+    out = []
+    for x in nodes:
+        if x.get("k") == "Struct" and "rest" not in x and norm(x.get("adt", "")) == ERR:
+            out.append(norm(x["variant"]).split("::")[-1])
+        elif x.get("k") == "Path" and x.get("dk", "").startswith("Ctor") and norm(x.get("adt", "")) == ERR:
+            out.append(norm(x["def"]).split("::")[-1])
+    return out
+
+
+# directives: (element whose `directives` are validated, position whose region must contain the validation)
+DIR_NEED = [("SchemaDefinition", "SchemaDefinition"), ("ScalarTypeDefinition", "ScalarTypeDefinition"),
+            ("ObjectTypeDefinition", "ObjectTypeDefinition"), ("FieldDefinition", "ObjectTypeDefinition"),
+            ("InterfaceTypeDefinition", "InterfaceTypeDefinition"), ("FieldDefinition", "InterfaceTypeDefinition"),
+            ("UnionTypeDefinition", "UnionTypeDefinition"), ("EnumTypeDefinition", "EnumTypeDefinition"),
+            ("EnumValueDefinition", "EnumTypeDefinition"), ("InputObjectTypeDefinition", "InputObjectTypeDefinition"),
+            ("InputValueDefinition", "InputObjectTypeDefinition"), ("InputValueDefinition", "ArgumentsDefinition")]
+
+
 def r05a(P, R):
-    fns = [P.fns[p] for p in scope(P) if p.startswith(CK + "type_system_checker")]
+    _guarded(R, "R05-a", "anchor:directive-sites", _r05a_sites, P, R)
+    _guarded(R, "R05-a", "anchor:builtin-directives", _r05a_builtins, P, R)
+
+
+_PV = {}
+
+
+def _position_views(P, posn, c):
+    """the check_directives call `c` as seen from a position's function with helpers attached: [(atoms of the directives
+    argument, string literals the location argument can be)] — decides helpers that receive the list or the location as parameters"""
+    fi = position_inlined(P, posn)
+    if _PV.get("P") is not P:
+        _PV.clear()
+        _PV["P"] = P
+    if posn not in _PV:
+        _PV[posn] = Prov(fi)
+    pv = _PV[posn]
+    out = []
+    for x in fi.walk():
+        if x.get("k") == "Call" and x.get("s") == c.get("s") and call_name(x) == call_name(c) and len(x["args"]) == len(c["args"]):
+            out.append((pv.atoms(x["args"][2]), {y[1] for y in pv.atoms(x["args"][3]) if y[0] == "lit" and isinstance(y[1], str)}))
+    return out
+
+
+def _r05a_sites(P, R):
+    fns = [P.fns[p] for p in scope(P) if P.fns[p].crate == CHK and p != CK + "common::check_directives"]
     sites = directive_sites(P, fns)
     R.floor("R05-a", "check_directives call sites (type system)", len(sites), 11)
-    covered = set()
+
+    def decide(key, f, elem, container, lits):
+        want = INPUT_VALUE_CONTAINER[container] if container else TS_LOCATIONS[(elem, "directives")]
+        where = "an input value inside %s.%s" % container if container else "`%s.directives`" % elem
+        R.check("R05-a", key, lits == {want}, "location %s" % want,
+                "%s checks directives of %s against %s; the GraphQL spec location for that position is %s"
+                % (f.path, where, sorted(lits), want), loc=f.loc())
+
+    def via_positions(f, c, why):
+        """second look at a call the function-local view cannot decide: through every position whose region contains it"""
+        done = False
+        for posn in sorted(POSITIONS):
+            try:
+                if f.path not in {g.path for g in region(P, posn)}:
+                    continue
+                views = _position_views(P, posn, c)
+            except AnchorMissing:
+                continue
+            for a2, lits2 in views:
+                elems = {x[1].replace(TS, "") for x in a2 if x[0] == "field" and x[2] == "directives" and (x[1].replace(TS, ""), "directives") in TS_LOCATIONS
+                         or (x[0] == "field" and x[2] == "directives" and x[1] == TS + "InputValueDefinition")}
+                if len(elems) != 1 or not lits2:
+                    continue
+                elem = elems.pop()
+                if elem == "InputValueDefinition":
+                    conts = [k for k in INPUT_VALUE_CONTAINER if any(x[0] == "field" and x[1] == TS + k[0] and x[2] == k[1] for x in a2)]
+                    if len(conts) != 1:
+                        continue
+                    decide("dirloc:InputValueDefinition in %s" % conts[0][0], f, elem, conts[0], lits2)
+                else:
+                    decide("dirloc:%s@%s" % (elem, POSITIONS[posn]), f, elem, None, lits2)
+                done = True
+        if not done:
+            R.undecided("R05-a", "dirloc:%s" % short(f.path), why, loc=f.loc())
+
     for f, c, src, lits, table, atoms in sites:
         srcs = {(a.replace(TS, ""), fld) for a, fld in src if a.startswith(TS)}
         pos = [s for s in srcs if s in TS_LOCATIONS]
+        computed = not lits and not table  # the location is not a literal at this call (parameter, constant, ...)
         if ("InputValueDefinition", "directives") in srcs:
             conts = [k for k in INPUT_VALUE_CONTAINER if any(x[0] == "field" and x[1] == TS + k[0] and x[2] == k[1] for x in atoms)]
-            key = "dirloc:InputValueDefinition@%s" % short(f.path)
-            if len(conts) != 1:
-                R.undecided("R05-a", key, "container of the input value is ambiguous: %s" % conts, loc=f.loc())
+            if len(conts) != 1 or computed:
+                via_positions(f, c, "container of the input value is ambiguous (%s) or the location is not a literal" % conts)
                 continue
-            want = INPUT_VALUE_CONTAINER[conts[0]]
-            covered.add(("InputValueDefinition", conts[0][0]))
-            R.check("R05-a", "dirloc:InputValueDefinition in %s" % conts[0][0], lits == {want}, "location %s" % want,
-                    "%s checks directives of an input value inside %s.%s against %s; the spec location is %s"
-                    % (f.path, conts[0][0], conts[0][1], sorted(lits), want), loc=f.loc())
+            decide("dirloc:InputValueDefinition in %s" % conts[0][0], f, "InputValueDefinition", conts[0], lits)
             continue
-        if len(pos) != 1:
-            R.undecided("R05-a", "dirloc:%s" % short(f.path), "directives argument has provenance %s" % sorted(srcs), loc=f.loc())
+        if len(pos) != 1 or computed:
+            via_positions(f, c, "directives argument has provenance %s, location literals %s" % (sorted(srcs), sorted(lits)))
             continue
-        want = TS_LOCATIONS[pos[0]]
         # the element type alone does not identify the caller for FieldDefinition (object vs interface): key by function
-        key = "dirloc:%s@%s" % (pos[0][0], f.name)
-        covered.add((pos[0][0], f.name))
-        R.check("R05-a", key, lits == {want}, "location %s" % want,
-                "%s checks `%s.directives` against location %s; the GraphQL spec location for that position is %s"
-                % (f.path, pos[0][0], sorted(lits), want), loc=f.loc())
-    need = [("SchemaDefinition", "check_schema"), ("ScalarTypeDefinition", "check_scalar"), ("ObjectTypeDefinition", "check_object"),
-            ("FieldDefinition", "check_object"), ("InterfaceTypeDefinition", "check_interface"), ("FieldDefinition", "check_interface"),
-            ("UnionTypeDefinition", "check_union"), ("EnumTypeDefinition", "check_enum"), ("EnumValueDefinition", "check_enum"),
-            ("InputObjectTypeDefinition", "check_input_object"), ("InputValueDefinition", "InputObjectTypeDefinition"),
-            ("InputValueDefinition", "ArgumentsDefinition")]
-    for n_ in need:
-        R.check("R05-a", "dircover:%s@%s" % n_, n_ in covered, "directives at this position are validated",
-                "directives on %s (in %s) are never passed to check_directives" % n_)
-    # built-in directive definitions carry the spec's locations
-    gb = P.fn("graphql_builtins::generate_builtins")
-    spec = {"skip": {"FIELD", "FRAGMENT_SPREAD", "INLINE_FRAGMENT"}, "include": {"FIELD", "FRAGMENT_SPREAD", "INLINE_FRAGMENT"},
-            "deprecated": {"FIELD_DEFINITION", "ARGUMENT_DEFINITION", "INPUT_FIELD_DEFINITION", "ENUM_VALUE"}, "specifiedBy": {"SCALAR"}}
-    found = {}
-    for c in gb.walk():
-        if c.get("k") == "Call" and (call_name(c) or "") == "graphql_builtins::directive":
-            name = lit_value(c["args"][0])
-            locs = set(str_lits_in(c["args"][2]))
-            found[name] = locs
-    for name, want in sorted(spec.items()):
-        R.check("R05-a", "builtin-locations:@" + name, found.get(name) == want, "@%s on %s" % (name, sorted(want)),
-                "built-in directive @%s is defined for locations %s; the spec says %s" % (name, sorted(found.get(name) or []), sorted(want)), loc=gb.loc())
-    nb = P.fn("nitrogql_cli::builtins::nitrogql_builtins")
-    R.check("R05-a", "builtin-locations:@nitrogql_ts_type", "SCALAR" in str_lits_in(nb.body), "@nitrogql_ts_type on SCALAR", "nitrogql_ts_type location changed", loc=nb.loc())
+        decide("dirloc:%s@%s" % (pos[0][0], f.name), f, pos[0][0], None, lits)
+    # every position that can carry directives validates them: a site on `<element>.directives` lies in the position's region
+    for elem, posn in DIR_NEED:
+        key = "dircover:%s@%s" % (elem, POSITIONS[posn])
+        try:
+            reg = {g.path for g in region(P, posn)}
+        except AnchorMissing as e:
+            R.undecided("R05-a", key, "kind=anchor-missing: %s" % e)
+            continue
+        here = [s for s in sites if s[0].path in reg]
+        hit = [s for s in here if (TS + elem, "directives") in s[2]]
+        opaque = [s for s in here if not s[2]]
+        if hit:
+            R.holds("R05-a", key, "directives at this position are validated (in %s)" % short(hit[0][0].path), loc=hit[0][0].loc())
+        elif opaque:
+            R.undecided("R05-a", key, "a check_directives call in %s takes its list from an unrecognised source" % short(opaque[0][0].path), loc=opaque[0][0].loc())
+        else:
+            R.violated("R05-a", key, "directives on %s are never passed to check_directives on the path from %s (the checker of %s)"
+                       % (elem, position_fn(P, posn).path, posn), loc=position_fn(P, posn).loc())
     valid_locs = {"QUERY", "MUTATION", "SUBSCRIPTION", "FIELD", "FRAGMENT_DEFINITION", "FRAGMENT_SPREAD", "INLINE_FRAGMENT", "VARIABLE_DEFINITION",
                   "SCHEMA", "SCALAR", "OBJECT", "FIELD_DEFINITION", "ARGUMENT_DEFINITION", "INTERFACE", "UNION", "ENUM", "ENUM_VALUE", "INPUT_OBJECT",
                   "INPUT_FIELD_DEFINITION"}
@@ -127,16 +269,57 @@ def r05a(P, R):
             R.violated("R05-a", "location-name:%s" % short(f.path), "%s uses %s, which is not a directive location of the grammar" % (f.path, sorted(bad)), loc=f.loc())
 
 
+def _r05a_builtins(P, R):
+    # built-in directive definitions carry the spec's locations
+    gb = P.fn("graphql_builtins::generate_builtins")
+    spec = {"skip": {"FIELD", "FRAGMENT_SPREAD", "INLINE_FRAGMENT"}, "include": {"FIELD", "FRAGMENT_SPREAD", "INLINE_FRAGMENT"},
+            "deprecated": {"FIELD_DEFINITION", "ARGUMENT_DEFINITION", "INPUT_FIELD_DEFINITION", "ENUM_VALUE"}, "specifiedBy": {"SCALAR"}}
+    found = {}
+    for c in gb.walk():
+        if c.get("k") == "Call" and (call_name(c) or "") == "graphql_builtins::directive" and len(c["args"]) >= 3:
+            name = lit_value(c["args"][0])
+            locs = set(str_lits_in(c["args"][2]))
+            found[name] = locs
+    for name, want in sorted(spec.items()):
+        if name not in found:
+            R.undecided("R05-a", "builtin-locations:@" + name, "the definition of built-in @%s was not found in the recognised form" % name, loc=gb.loc())
+            continue
+        R.check("R05-a", "builtin-locations:@" + name, found.get(name) == want, "@%s on %s" % (name, sorted(want)),
+                "built-in directive @%s is defined for locations %s; the spec says %s" % (name, sorted(found.get(name) or []), sorted(want)), loc=gb.loc())
+    nb = P.fn("nitrogql_cli::builtins::nitrogql_builtins")
+    R.check("R05-a", "builtin-locations:@nitrogql_ts_type", "SCALAR" in str_lits_in(nb.body), "@nitrogql_ts_type on SCALAR", "nitrogql_ts_type location changed", loc=nb.loc())
+
+
+OUTPUT_POS = (("ObjectTypeDefinition", "is_output_type", "NoInputType"), ("InterfaceTypeDefinition", "is_output_type", "NoInputType"),
+              ("InputObjectTypeDefinition", "is_input_type", "NoOutputType"), ("ArgumentsDefinition", "is_input_type", "NoOutputType"))
+
+
 def r05b(P, R):
-    n = 0
-    for name in ("check_object", "check_interface", "check_input_object", "check_arguments_definition"):
-        f = P.fn(CK + "type_system_checker::" + name)
-        n += none_handling(P, R, "R05-b", f)
-    R.floor("R05-b", "inout_kind_of_type call sites", n, 4)
+    _guarded(R, "R05-b", "anchor:none-handling", _r05b_none, P, R)
+    _guarded(R, "R05-b", "anchor:kind-table", _r05b_kind, P, R)
+    _guarded(R, "R05-b", "anchor:predicates", _r05b_pred, P, R)
+    _guarded(R, "R05-b", "anchor:direction", _r05b_direction, P, R)
+
+
+def _r05b_none(P, R):
+    for posn, _p, _d in OUTPUT_POS:
+        try:
+            f = position_inlined(P, posn)
+        except AnchorMissing as e:
+            R.undecided("R05-b", "none:" + POSITIONS[posn], "kind=anchor-missing: %s" % e)
+            continue
+        n = none_handling(P, R, "R05-b", f)
+        R.floor("R05-b", "inout_kind_of_type call sites for " + posn, n, 1)
+
+
+def _r05b_kind(P, R):
     # the kind table itself (spec IsInputType / IsOutputType)
     k = P.fn(CK + "types::inout_kind_of_type")
+    ki = inlined(P, k)
     want = {"Scalar": "Both", "Object": "Output", "Interface": "Output", "Union": "Output", "Enum": "Both", "InputObject": "Input"}
-    for m in matches_on(k, "TypeDefinition"):
+    ms = matches_on(ki, "TypeDefinition")
+    R.floor("R05-b", "match over TypeDefinition in inout_kind_of_type", len(ms), 1)
+    for m in ms:
         tab = variant_table(m)
         for v, exp in sorted(want.items()):
             arm = tab.get(v)
@@ -144,45 +327,70 @@ def r05b(P, R):
             if arm:
                 ds = [norm(x.get("def", "")).split("::")[-1] for x in subnodes(arm["body"]) if x.get("k") == "Path" and "TypeInOutKind" in norm(x.get("def", ""))]
                 got = ds[0] if ds else None
+            if arm is not None and got is None:
+                R.undecided("R05-b", "kind:" + v, "the classification of %s types is not a plain TypeInOutKind value" % v, loc=k.loc())
+                continue
             R.check("R05-b", "kind:" + v, got == exp and "_" not in tab, "%s -> %s" % (v, exp), "%s types are classified as %s (spec: %s)" % (v, got, exp), loc=k.loc())
-    ti = P.adt(CK + "types::TypeInOutKind")
+
+
+def _r05b_pred(P, R):
     for fn_, accept in (("is_input_type", {"Input", "Both"}), ("is_output_type", {"Output", "Both"})):
         g = P.fn(CK + "types::TypeInOutKind::" + fn_)
-        for m in matches_on(g, "TypeInOutKind"):
+        ms = [m for m in g.walk() if m.get("k") == "Match" and peel_ty(m["scrut"].get("t")).split("<")[0].endswith("TypeInOutKind")]
+        if not ms:
+            R.undecided("R05-b", "predicate:" + fn_, "%s is not written as a match over TypeInOutKind" % g.path, loc=g.loc())
+        for m in ms:
             tab = variant_table(m)
             truthy = {v for v, arm in tab.items() if lit_value(arm["body"]) is True}
+            falsy = {v for v, arm in tab.items() if lit_value(arm["body"]) is False}
+            if truthy | falsy != set(tab):
+                R.undecided("R05-b", "predicate:" + fn_, "an arm of %s is not a boolean literal" % g.path, loc=g.loc())
+                continue
+            if "_" in truthy:
+                truthy = (truthy - {"_"}) | ({"Input", "Output", "Both"} - set(tab))
             R.check("R05-b", "predicate:" + fn_, truthy == accept, "%s = %s" % (fn_, sorted(accept)), "%s is true for %s" % (fn_, sorted(truthy)), loc=g.loc())
-    # directions: output positions use is_output_type, input positions is_input_type
-    for name, want_pred, diag in (("check_object", "is_output_type", "NoInputType"), ("check_interface", "is_output_type", "NoInputType"),
-                                  ("check_input_object", "is_input_type", "NoOutputType"), ("check_arguments_definition", "is_input_type", "NoOutputType")):
-        f = P.fn(CK + "type_system_checker::" + name)
-        preds = {c["method"] for c in f.walk() if c.get("k") == "MethodCall" and c["method"] in ("is_input_type", "is_output_type")}
-        made = {norm(x.get("variant", "")).split("::")[-1] for x in f.walk() if x.get("k") == "Struct" and "rest" not in x}
+
+
+def _r05b_direction(P, R):
+    # directions: output positions use is_output_type, input positions is_input_type (anywhere in the position's region)
+    for posn, want_pred, diag in OUTPUT_POS:
+        name = POSITIONS[posn]
+        try:
+            reg = region(P, posn)
+        except AnchorMissing as e:
+            R.undecided("R05-b", "direction:" + name, "kind=anchor-missing: %s" % e)
+            continue
+        f = position_fn(P, posn)
+        preds = {c["method"] for g in reg for c in g.walk() if c.get("k") == "MethodCall" and c["method"] in ("is_input_type", "is_output_type")}
+        made = set(d for g in reg for d in diag_sites(g.walk()))
+        if not preds:
+            R.undecided("R05-b", "direction:" + name, "no is_input_type / is_output_type test on the path from %s" % f.path, loc=f.loc())
+            continue
         R.check("R05-b", "direction:" + name, preds == {want_pred} and diag in made, "%s / %s" % (want_pred, diag),
                 "%s tests %s and reports %s (expected %s / %s)" % (f.path, sorted(preds), sorted(made & {"NoInputType", "NoOutputType"}), want_pred, diag), loc=f.loc())
 
 
 def loop_diagnostics(f, elem_adt):
-    """multiset of diagnostics constructed inside the `for` loop whose element is `elem_adt`"""
-    out = {}
+    """multiset of diagnostics constructed inside the `for` loop whose element is `elem_adt` (helpers attached by inlining count)"""
     for m in f.walk():
         if m.get("k") == "Match" and m.get("src") == "ForLoopDesugar" and elem_adt in norm(m["scrut"].get("t", "")):
-            for x in subnodes(m):
-                if x.get("k") == "Struct" and "rest" not in x and norm(x.get("adt", "")) == ERR:
-                    v = norm(x["variant"]).split("::")[-1]
-                    out[v] = out.get(v, 0) + 1
-                elif x.get("k") == "Path" and x.get("dk", "").startswith("Ctor") and norm(x.get("adt", "")) == ERR:
-                    v = norm(x["def"]).split("::")[-1]
-                    out[v] = out.get(v, 0) + 1
-            calls = sorted(set(short(call_name(x)) for x in subnodes(m) if x.get("k") == "Call" and (call_name(x) or "").startswith(CK)))
+            out = {}
+            for v in diag_sites(subnodes(m)):
+                out[v] = out.get(v, 0) + 1
+            calls = sorted(set(short(call_name(x)) for x in subnodes(m) if x.get("k") == "Call" and (call_name(x) or "").startswith(CK) and "inl" not in x))
             return out, calls
     return None, None
 
 
 def r05c(P, R):
-    pairs = [("check_object", "check_interface", "FieldDefinition"), ("check_input_object", "check_arguments_definition", "InputValueDefinition")]
-    for a, b, elem in pairs:
-        fa, fb = P.fn(CK + "type_system_checker::" + a), P.fn(CK + "type_system_checker::" + b)
+    pairs = [("ObjectTypeDefinition", "InterfaceTypeDefinition", "FieldDefinition"), ("InputObjectTypeDefinition", "ArgumentsDefinition", "InputValueDefinition")]
+    for pa, pb, elem in pairs:
+        a, b = POSITIONS[pa], POSITIONS[pb]
+        try:
+            fa, fb = position_inlined(P, pa), position_inlined(P, pb)
+        except AnchorMissing as e:
+            R.undecided("R05-c", "sibling:%s~%s" % (a, b), "kind=anchor-missing: %s" % e)
+            continue
         da, ca = loop_diagnostics(fa, elem)
         db, cb = loop_diagnostics(fb, elem)
         if da is None or db is None:
@@ -191,14 +399,19 @@ def r05c(P, R):
         R.check("R05-c", "sibling:%s~%s" % (a, b), da == db and ca == cb,
                 "the per-%s rules are the same in both (%s)" % (elem, sorted(da)),
                 "%s and %s apply different rules to each %s: %s reports %s (calls %s), %s reports %s (calls %s)"
-                % (a, b, elem, a, da, ca, b, db, cb), loc=fb.loc())
+                % (fa.path, fb.path, elem, a, da, ca, b, db, cb), loc=fb.loc())
     # implements handling: both call check_valid_implementation with their own name/fields/implements
-    for name in ("check_object", "check_interface"):
-        f = P.fn(CK + "type_system_checker::" + name)
+    for posn in ("ObjectTypeDefinition", "InterfaceTypeDefinition"):
+        name = POSITIONS[posn]
+        try:
+            f = position_inlined(P, posn)
+        except AnchorMissing as e:
+            R.undecided("R05-c", "implementation-args:" + name, "kind=anchor-missing: %s" % e)
+            continue
         pv = Prov(f)
-        calls = [c for c in f.walk() if c.get("k") == "Call" and (call_name(c) or "").endswith("interfaces::check_valid_implementation")]
+        calls = [c for c in f.walk() if c.get("k") == "Call" and (call_name(c) or "").endswith("interfaces::check_valid_implementation") and len(c["args"]) >= 4]
         R.floor("R05-c", "check_valid_implementation call in " + name, len(calls), 1)
-        adt = TS + ("ObjectTypeDefinition" if name == "check_object" else "InterfaceTypeDefinition")
+        adt = TS + posn
         for c in calls:
             own = pv.params.get(f.params[0].get("local"))
             ok = has_field(pv.atoms(c["args"][1]), adt, "name") and has_field(pv.atoms(c["args"][2]), adt, "fields") and has_field(pv.atoms(c["args"][3]), adt, "implements")
@@ -208,25 +421,45 @@ def r05c(P, R):
                 ok = ok and ps == {own}
             R.check("R05-c", "implementation-args:" + name, ok, "(name, fields, implements) of the implementing type",
                     "%s passes the wrong components to check_valid_implementation" % f.path, loc=f.loc())
-        made = {norm(x.get("variant", "")).split("::")[-1] for x in f.walk() if x.get("k") == "Struct" and "rest" not in x}
+        # every name in `implements` that is unknown / not an interface is reported: inside the loop over `implements`
+        loops = [m for m in f.walk() if m.get("k") == "Match" and m.get("src") == "ForLoopDesugar"
+                 and (call_name(m["scrut"]) or "").endswith("IntoIterator::into_iter") and has_field(pv.atoms(m["scrut"]), adt, "implements")]
+        if not loops:
+            R.undecided("R05-c", "implements-rules:" + name, "no `for` loop over `%s.implements` on the path from %s" % (posn, f.path), loc=f.loc())
+            continue
+        made = set(d for m in loops for d in diag_sites(subnodes(m)))
         R.check("R05-c", "implements-rules:" + name, {"UnknownType", "NotInterface"} <= made, "unknown / non-interface `implements` reported",
-                "%s does not report unknown or non-interface implemented types" % f.path, loc=f.loc())
+                "%s does not report %s for the names in `implements`" % (f.path, sorted({"UnknownType", "NotInterface"} - made)), loc=f.loc())
 
 
 def r05d(P, R):
+    _guarded(R, "R05-d", "anchor:traversal", _r05d_cover, P, R)
+    _guarded(R, "R05-d", "anchor:recursion-follows", _r05d_follow, P, R)
+    _guarded(R, "R05-d", "anchor:recursion-edges", _r05d_edges, P, R)
+
+
+def _r05d_cover(P, R):
     sc = scope(P)
     R.count("functions_reachable_from_check_type_system_document", len(sc))
-    ex = {(TS + a if not a.startswith("nitrogql") else a, f): r for (a, f), r in EXEMPT.items()}
     n = field_coverage(P, R, "R05-d", sc, [TS + t for t in TS_AST], {(TS + a, f): r for (a, f), r in EXEMPT.items()},
                        "the type-system checker (reachable from check_type_system_document)")
     R.floor("R05-d", "type-system AST content fields", n, 30)
     e = entry(P)
+    ei = inlined(P, e, pred=_positions(P)["pred"])
     for enum in ("type_system::TypeSystemDefinition", "type_system::TypeDefinition"):
         adt = P.adt("nitrogql_ast::" + enum)
-        for m in matches_on(e, enum):
+        ms = matches_on(ei, enum)
+        # a match that hands the node to a position's checker is a dispatch; one that only inspects it (a log line) is not
+        pos_paths = {g.path for g in _positions(P)["fns"].values() if g is not None}
+        ms = [m for m in ms if any(call_name(x) in pos_paths for x in subnodes(m) if x.get("k") in ("Call", "MethodCall"))] or ms
+        R.floor("R05-d", "dispatch over " + enum.split("::")[-1], len(ms), 1)
+        for m in ms:
             v, catch = arm_variants(m)
             R.check("R05-d", "dispatch:" + enum.split("::")[-1], v == set(adt.variant_names()) and not catch, "every definition kind is dispatched",
                     "check_type_system_document does not dispatch %s" % sorted(set(adt.variant_names()) - v), loc=e.loc())
+
+
+def _r05d_follow(P, R):
     # directive recursion search follows directives on every nested element of an argument's type
     d = P.fn(CK + "type_system_checker::check_directive_recursion::directives_in_type")
     pv = Prov(d)
@@ -235,52 +468,151 @@ def r05d(P, R):
               "Interface": [("InterfaceTypeDefinition", "directives"), ("InterfaceTypeDefinition", "fields"), ("FieldDefinition", "directives")],
               "Enum": [("EnumTypeDefinition", "directives"), ("EnumTypeDefinition", "values"), ("EnumValueDefinition", "directives")],
               "InputObject": [("InputObjectTypeDefinition", "directives"), ("InputObjectTypeDefinition", "fields"), ("InputValueDefinition", "directives")]}
-    for m in matches_on(d, "type_system::TypeDefinition"):
+    ms = matches_on(d, "type_system::TypeDefinition")
+    R.floor("R05-d", "match over TypeDefinition in directives_in_type", len(ms), 1)
+    for m in ms:
         tab = variant_table(m)
         for v, want in sorted(nested.items()):
             arm = tab.get(v)
-            a = pv.atoms(arm["body"]) if arm else set()
+            a = pv.deep_atoms(arm["body"]) if arm else set()
             missing = [w for w in want if not has_field(a, TS + w[0], w[1])]
             R.check("R05-d", "recursion-follows:" + v, arm is not None and not missing, "directives on the type and on its members are followed",
                     "the directive-recursion search does not follow %s of %s types: a directive that refers to itself through them is accepted"
                     % (["%s.%s" % w for w in missing], v), loc=d.loc())
+
+
+def _r05d_edges(P, R):
     cr = P.fn(CK + "type_system_checker::check_directive_recursion::check_directive_recursion")
     pvr = Prov(cr)
-    a = pvr.atoms(cr.body)
+    a = pvr.deep_atoms(cr.body)
     ok = has_field(a, TS + "InputValueDefinition", "directives") and has_field(a, TS + "InputValueDefinition", "type") and has_call(a, "directives_in_type")
     R.check("R05-d", "recursion-edges", ok, "edges: argument directives and directives in the argument's type",
             "check_directive_recursion does not follow both the argument's own directives and its type's directives", loc=cr.loc())
 
 
+# diagnostics tied to a position: how many construction sites each position's region had on the reference tree
+POSITION_RULES = {
+    "DirectiveDefinition": {"UnscoUnsco": 1, "RecursingDirective": 1},
+    "ScalarTypeDefinition": {"UnscoUnsco": 1},
+    "ObjectTypeDefinition": {"UnscoUnsco": 2, "DuplicatedName": 1, "UnknownType": 2, "NoInputType": 1, "NotInterface": 1},
+    "InterfaceTypeDefinition": {"UnscoUnsco": 2, "DuplicatedName": 1, "UnknownType": 2, "NoInputType": 1, "NotInterface": 1, "NoImplementSelf": 1},
+    "UnionTypeDefinition": {"UnscoUnsco": 1, "DuplicatedName": 1, "UnknownType": 1, "NonObjectTypeUnionMember": 1},
+    "EnumTypeDefinition": {"UnscoUnsco": 1, "DuplicatedName": 1},
+    "InputObjectTypeDefinition": {"UnscoUnsco": 2, "DuplicatedName": 1, "UnknownType": 1, "NoOutputType": 1},
+    "ArgumentsDefinition": {"UnscoUnsco": 1, "DuplicatedName": 1, "UnknownType": 1, "NoOutputType": 1},
+}
+# names the reserved-name rule must see: (node whose `name` is tested, position whose region tests it)
+RESERVED = [("DirectiveDefinition", "DirectiveDefinition"), ("ScalarTypeDefinition", "ScalarTypeDefinition"),
+            ("ObjectTypeDefinition", "ObjectTypeDefinition"), ("FieldDefinition", "ObjectTypeDefinition"),
+            ("InterfaceTypeDefinition", "InterfaceTypeDefinition"), ("FieldDefinition", "InterfaceTypeDefinition"),
+            ("UnionTypeDefinition", "UnionTypeDefinition"), ("EnumTypeDefinition", "EnumTypeDefinition"),
+            ("InputObjectTypeDefinition", "InputObjectTypeDefinition"), ("InputValueDefinition", "InputObjectTypeDefinition"),
+            ("InputValueDefinition", "ArgumentsDefinition")]
+
+
 def r05e(P, R):
+    _guarded(R, "R05-e", "anchor:liveness", _r05e_live, P, R)
+    _guarded(R, "R05-e", "anchor:reserved-names", _r05e_reserved, P, R)
+
+
+def _r05e_live(P, R):
     sc = scope(P)
     counts = {}
     for p in sc:
-        f = P.fns[p]
-        for x in f.walk():
-            v = None
-            if x.get("k") == "Struct" and "rest" not in x and norm(x.get("adt", "")) == ERR:
-                v = norm(x["variant"]).split("::")[-1]
-            elif x.get("k") == "Path" and norm(x.get("adt", "")) == ERR and x.get("dk", "").startswith("Ctor"):
-                v = norm(x["def"]).split("::")[-1]
-            if v:
-                counts[v] = counts.get(v, 0) + 1
+        for v in diag_sites(P.fns[p].walk()):
+            counts[v] = counts.get(v, 0) + 1
+    # per position: the diagnostic is still constructed somewhere in the position's region (a shared helper counts for every
+    # position that reaches it)
+    per_pos = {}
+    for posn, table in sorted(POSITION_RULES.items()):
+        try:
+            reg = region(P, posn)
+        except AnchorMissing as e:
+            R.undecided("R05-e", "live@" + POSITIONS[posn], "kind=anchor-missing: %s" % e)
+            per_pos = None
+            continue
+        got = {}
+        for g in reg:
+            for v in diag_sites(g.walk()):
+                got[v] = got.get(v, 0) + 1
+        for v, need in sorted(table.items()):
+            if per_pos is not None:
+                per_pos[v] = per_pos.get(v, 0) + got.get(v, 0)
+            f = position_fn(P, posn)
+            R.check("R05-e", "live:%s@%s" % (v, POSITIONS[posn]), got.get(v, 0) >= 1,
+                    "%d construction site(s) on the path from %s" % (got.get(v, 0), short(f.path)),
+                    "diagnostic %s is constructed by no function on the path from %s (the checker of %s nodes): that rule is no longer "
+                    "applied at this position" % (v, f.path, posn), loc=f.loc())
+    tied = {v for t in POSITION_RULES.values() for v in t}
     for v, need in sorted(TS_RULE_SITES.items()):
         got = counts.get(v, 0)
-        R.check("R05-e", "live:" + v, got >= need, "%d construction site(s) reachable from check_type_system_document" % got,
-                "diagnostic %s is constructed at %d site(s) reachable from check_type_system_document, %d were confirmed on the reference tree: "
-                "a rule instance was removed or is no longer reachable" % (v, got, need))
+        if got == 0:
+            R.violated("R05-e", "live:" + v, "diagnostic %s is constructed at no site reachable from check_type_system_document: the rule is gone" % v)
+            continue
+        eff = per_pos.get(v, 0) if (per_pos is not None and v in tied) else got
+        if eff >= need:
+            R.holds("R05-e", "live:" + v, "%d construction site(s) reachable from check_type_system_document" % got)
+        else:
+            # fewer sites than on the reference tree, none of the per-position instances above is empty: duplicated code may have
+            # been merged — not evidence that a rule instance is gone
+            R.undecided("R05-e", "live:" + v, "diagnostic %s has %d construction site(s) along the per-position paths, %d were confirmed on the "
+                        "reference tree; every position still constructs it" % (v, eff, need))
+
+
+def _reserved_fn(P):
+    f = P.fn(CK + "type_system_checker::name_starts_with_unscounsco", required=False)
+    if f is not None:
+        return f
+    cands = [P.fns[p] for p in scope(P) if P.fns[p].crate == CHK and [peel_ty(x) for x in P.fns[p].sig_inputs] == ["nitrogql_ast::base::Ident"]
+             and P.fns[p].sig_output == "bool"]
+    if len(cands) == 1:
+        return cands[0]
+    raise AnchorMissing("the reserved-name predicate fn(&Ident) -> bool was not identified")
+
+
+def _r05e_reserved(P, R):
     # reserved-name rule on every named definition kind and member kind
-    un = P.fn(CK + "type_system_checker::name_starts_with_unscounsco")
-    callers = sorted(short(c) for c in P.callers_of(un.path))
-    need = {"type_system_checker::" + x for x in ("check_directive", "check_scalar", "check_object", "check_interface", "check_union", "check_enum", "check_input_object", "check_arguments_definition")}
-    R.check("R05-e", "reserved-names", need <= set(callers), "`__` names rejected for every kind of definition",
-            "the reserved-name rule is not applied in %s" % sorted(need - set(callers)), loc=un.loc())
-    lits = [x.get("v") for x in un.walk() if x.get("k") == "Lit"]
-    R.check("R05-e", "reserved-prefix", lits == ["__"], "prefix `__`", "reserved prefix literal is %s" % lits, loc=un.loc())
+    un = _reserved_fn(P)
+    for elem, posn in RESERVED:
+        key = "reserved-names:%s@%s" % (elem, POSITIONS[posn])
+        try:
+            reg = region(P, posn)
+        except AnchorMissing as e:
+            R.undecided("R05-e", key, "kind=anchor-missing: %s" % e)
+            continue
+        seen, opaque = set(), 0
+        for g in reg:
+            calls = [c for c in g.walk() if c.get("k") == "Call" and call_name(c) == un.path and c["args"]]
+            if not calls:
+                continue
+            pv = Prov(g)
+            for c in calls:
+                flds = {x[1].replace(TS, "") for x in pv.atoms(c["args"][0]) if x[0] == "field" and x[2] == "name" and x[1].startswith(TS)}
+                seen |= flds
+                if not flds:
+                    opaque += 1
+        if elem in seen:
+            R.holds("R05-e", key, "`__` names rejected", loc=un.loc())
+        elif opaque:
+            R.undecided("R05-e", key, "a call of %s on the path from %s tests a name of unrecognised origin" % (short(un.path), position_fn(P, posn).path), loc=un.loc())
+        else:
+            R.violated("R05-e", key, "the reserved-name rule (`__` prefix) is not applied to the name of %s on the path from %s"
+                       % (elem, position_fn(P, posn).path), loc=position_fn(P, posn).loc())
+    lits = [x.get("v") for x in un.walk() if x.get("k") == "Lit" and x.get("lk") in ("str", "char")]
+    if "__" in lits:
+        R.holds("R05-e", "reserved-prefix", "prefix `__`", loc=un.loc())
+    elif lits:
+        R.violated("R05-e", "reserved-prefix", "reserved prefix literal is %s" % lits, loc=un.loc())
+    else:
+        R.undecided("R05-e", "reserved-prefix", "%s does not compare against a string literal" % un.path, loc=un.loc())
 
 
 def r05f(P, R):
+    _guarded(R, "R05-f", "anchor:implementation-rules", _r05f_impl, P, R)
+    _guarded(R, "R05-f", "anchor:union-members", _r05f_union, P, R)
+
+
+def _r05f_impl(P, R):
     """interface implementation rules: reachability, recursion discipline, and what each sub-rule is conditional on"""
     cvi = P.fn(CK + "type_system_checker::interfaces::check_valid_implementation")
     sub = P.fn(CK + "types::is_subtype")
@@ -359,14 +691,25 @@ def r05f(P, R):
     R.check("R05-f", "no-truncation", not lossy, "all interface fields and arguments are visited", "check_valid_implementation truncates an iteration with %s" % lossy, loc=cvi.loc())
     n2 = iterator_reuse(P, R, "R05-f", [f for f in P.fns.values() if f.path.startswith(CK + "type_system_checker")])
     R.holds("R05-f", "iter-reuse:none", "%d iterator locals, none consumed twice" % n2)
-    # union members must be objects
-    cu = P.fn(CK + "type_system_checker::check_union")
-    ok = False
-    for m in matches_on(cu, "type_system::TypeDefinition"):
-        v, catch = arm_variants(m)
-        if v == {"Object"}:
-            ok = True
-    R.check("R05-f", "union-member-kind", ok, "union members must be Object types", "check_union accepts member kinds other than Object", loc=cu.loc())
+
+
+def _r05f_union(P, R):
+    # union members must be objects: the test on the member's definition names Object and nothing else (match / matches! / if let)
+    f = position_inlined(P, "UnionTypeDefinition")
+    def is_td(e):
+        return peel_ty((e or {}).get("t")).split("<")[0].endswith("type_system::TypeDefinition")
+    kinds = []
+    for m in f.walk():
+        k = m.get("k")
+        if k == "Match" and not str(m.get("src", "")).startswith(("ForLoop", "TryDesugar")) and is_td(m["scrut"]):
+            kinds.append(arm_variants(m)[0])
+        elif (k == "LetExpr" or (k == "Let" and "els" in m)) and is_td(m.get("init")):
+            kinds.append(arm_variants({"arms": [{"pat": m["pat"]}]})[0])
+    if not kinds:
+        R.undecided("R05-f", "union-member-kind", "no test of a member's TypeDefinition kind on the path from %s" % f.path, loc=f.loc())
+        return
+    R.check("R05-f", "union-member-kind", all(v == {"Object"} for v in kinds), "union members must be Object types",
+            "%s accepts member kinds other than Object (%s)" % (f.path, [sorted(v) for v in kinds if v != {"Object"}]), loc=f.loc())
 
 
 def _r11d(P, R):
@@ -377,18 +720,24 @@ def _r11d(P, R):
 
 RULES = [("R05-a", r05a), ("R05-b", r05b), ("R05-c", r05c), ("R05-d", r05d), ("R05-e", r05e), ("R05-f", r05f), ("R11-d", _r11d)]
 EXPLANATION = (
-    "Type-system `check`, structural clauses for all schemas: (R05-a) every type-system position that can carry directives is passed to "
-    "check_directives with exactly its spec location (input values disambiguated by their container), built-in directives list the spec's "
+    "Type-system `check`, structural clauses for all schemas. The checker function of each kind of node is located by role (first "
+    "parameter type), and a clause about a kind looks at everything that function reaches without entering another kind's function, "
+    "so helper extraction, moves and renames do not change a verdict. (R05-a) every type-system position that can carry directives "
+    "passes them to check_directives with exactly its spec location (input values disambiguated by their container; helpers that "
+    "receive the list or the location as a parameter are decided through their callers), built-in directives list the spec's "
     "locations; (R05-b) an undefined type name is reported at every inout_kind_of_type call site, the kind table and the input/output "
-    "predicates match the spec, and each position tests the right direction; (R05-c) sibling agreement — check_object/check_interface "
-    "apply the same per-field rules, check_input_object/check_arguments_definition the same per-input-value rules; (R05-d) every content "
+    "predicates match the spec, and each position tests the right direction; (R05-c) sibling agreement — objects/interfaces "
+    "apply the same per-field rules, input objects/argument lists the same per-input-value rules, both pass their own "
+    "(name, fields, implements) to check_valid_implementation and report unknown / non-interface names inside the loop over "
+    "`implements`; (R05-d) every content "
     "field of the type-system AST is read by the checker, every definition kind is dispatched, the directive-recursion search follows "
-    "directives on types and on all their members; (R05-e) every type-system diagnostic keeps its construction sites, reserved names are "
-    "tested for every kind; (R05-f) implementation rules: is_subtype direction, recursion argument discipline, argument invariance, the "
+    "directives on types and on all their members; (R05-e) every type-system diagnostic is still constructed on the path of every "
+    "position it applies to, reserved names are tested for every named node of every kind; (R05-f) implementation rules: is_subtype "
+    "direction, recursion argument discipline, argument invariance, the "
     "additional-argument rule is unconditional on the interface side, union members are objects. Not decided: exactness of is_subtype "
     "and of the recursion search on concrete schemas.")
 ASSUMPTIONS = ["GraphQL spec (October 2021) §3 type-system validation and directive locations, transcribed by hand",
-               "TS_RULE_SITES counts were confirmed by reading the tree after the fix: commits"]
+               "TS_RULE_SITES / POSITION_RULES counts were confirmed by reading the tree after the fix: commits"]
 
 
 def main(tier):
